@@ -32,7 +32,8 @@ fn main() {
 				eprintln!("unknown property {}", args[2]);
 				std::process::exit(2)
 			};
-			std::process::exit(engine::run_property(def, tier, seed, only));
+			let write_evidence = !args.iter().any(|a| a == "--no-evidence");
+			std::process::exit(engine::run_property(def, tier, seed, only, write_evidence));
 		}
 		"transcript" => {
 			// transcript <seed> <chunk> <count> <max_len>
